@@ -9,8 +9,16 @@ HERE = os.path.dirname(os.path.dirname(os.path.abspath(__file__)))
 sys.path.insert(0, HERE)
 
 
+def find_dir(name):
+    for base in ("seeded", "mutants"):
+        d = os.path.join(HERE, base, name)
+        if os.path.exists(os.path.join(d, "meta.json")):
+            return d
+    raise SystemExit("no such seed/mutant: " + name)
+
+
 def run_one(name, props=None, verbose=True):
-    sdir = os.path.join(HERE, "seeded", name)
+    sdir = find_dir(name)
     meta = json.load(open(os.path.join(sdir, "meta.json")))
     expects = meta.get("expect", {})
     if props:
@@ -57,8 +65,13 @@ def main():
     ap.add_argument("names", nargs="*")
     ap.add_argument("--property", action="append")
     args = ap.parse_args()
-    names = args.names or sorted(d for d in os.listdir(os.path.join(HERE, "seeded"))
-                                 if os.path.exists(os.path.join(HERE, "seeded", d, "meta.json")))
+    names = args.names
+    if not names:
+        names = []
+        for base in ("seeded", "mutants"):
+            bd = os.path.join(HERE, base)
+            if os.path.isdir(bd):
+                names += sorted(d for d in os.listdir(bd) if os.path.exists(os.path.join(bd, d, "meta.json")))
     bad = 0
     for n in names:
         ok, msg = run_one(n, args.property)
